@@ -215,6 +215,9 @@ def shard_perfect(arg):
 # ------------------------------------------------------------------------------------ replay
 def replay(case, acc, what):
     task = base.load(case["task"])
+    if case["kind"] == "fixture":
+        check_defn(acc, task, task.func(case["func"]), task.fixture_states(case["tier"])[case["index"]], {})
+        return
     func = task.func(case["func"])
     cfg = case.get("cfg", {})
     if case["kind"] == "pair":
@@ -487,3 +490,26 @@ def replay_edge(case, acc, pid):
     kind = case["edge"].split(":")[0]
     spec = getattr(task, "edges", {}).get(kind, {})
     check_edge(acc, pid, task, func, state, new_state, case["edge"], case.get("cfg", {}), spec.get("keys"))
+
+
+
+# ------------------------------------------------------------------------------------ C04: perturbed repository fixtures
+def shard_fixture(arg):
+    """real code vs reference model on (perturbed) repository fixtures: long real-world annotations, default
+    parameters; comparisons too close to a threshold raise Undefined in the model and are counted"""
+    taskname, tier, idx = arg
+    task = base.load(taskname)
+    acc = core.Acc("C04")
+    states = task.fixture_states(tier)
+    for i in idx:
+        state = states[i]
+        acc.states += 1
+        acc.nontrivial += 1
+        acc.counters["fixture_states:%s" % taskname] += 1
+        for func in task.funcs:
+            acc.tick(lambda: {"kind": "fixture", "task": taskname, "func": func.name, "index": i, "tier": tier})
+            before = len(acc.viol)
+            check_defn(acc, task, func, state, {})
+            for v in acc.viol[before:]:          # long inputs: refer to the fixture by index instead of inlining it
+                v["case"] = {"kind": "fixture", "task": taskname, "func": func.name, "index": i, "tier": tier}
+    return acc
